@@ -201,7 +201,10 @@ func (self *linkedPairs) BuildIndex() {
 	}
 	for i := 0; i < self.size; i++ {
 		p := self.At(i)
-		self.index[p.hash] = i
+		// keep the first occurrence of a duplicated key, like the linear search in Get
+		if _, ok := self.index[p.hash]; !ok {
+			self.index[p.hash] = i
+		}
 	}
 }
 
